@@ -4,6 +4,7 @@ import (
 	"fmt"
 	"math"
 	"math/rand"
+	"os"
 	"strconv"
 	"strings"
 	"sync"
@@ -566,6 +567,9 @@ func c17ExecSQL(cfg *c17Cfg, rows []*c17Row) [][][]string {
 		select {
 		case m := <-ch:
 			if z, ok := m["zid"].(float64); ok && z == maxID+1 {
+				if os.Getenv("C17_DEBUG") != "" {
+					fmt.Fprintln(os.Stderr, "c17 sql:", len(got), "results; stream", s.Stream().GetStats(), "window", s.Stream().Window.GetStats())
+				}
 				return c17Attribute(cfg, rows, got)
 			}
 			got = append(got, m)
@@ -680,6 +684,11 @@ func (c17) Gen(rng *rand.Rand, tier string, idx int) Case {
 	n := 6 + rng.Intn(30)
 	if tier == "thorough" {
 		n = 6 + rng.Intn(80)
+	}
+	if mode == "sql" && n > 40 {
+		// the window's output buffer holds 50 batches (drop-oldest beyond that, which is C19's
+		// subject); a case must not be able to have more deliveries in flight than that
+		n = 40
 	}
 	nullRate := []int{0, 0, 10, 25, 60}[rng.Intn(5)] // percent of cells that are NULL / absent / non-numeric
 	c.Stat = append(c.Stat, fmt.Sprintf("nullrate-%d", nullRate))
